@@ -1,8 +1,9 @@
 (* C40 model, crash half: a tiny file-system model (two paths, inodes with a volatile and a
-   durable content, a journal of pending directory operations), CatalogPersistence::save as
-   the event list it issues IN PLACE (File::create = open+truncate, write_all header,
-   write_all body, sync_all), and the proposed repair (write a temporary file, sync it,
-   rename it over the catalog, sync the directory).  Definitions only, no proofs. *)
+   durable content, a journal of pending directory operations) and CatalogPersistence::save as
+   the event list it issues: since /repo 5a0cf56 [save_atomic] (File::create of <path>.tmp,
+   write_all header, write_all body, sync_all, rename over the catalog, best-effort fsync of the
+   directory); before that commit [save_inplace] (the same writes IN PLACE on the live file),
+   kept for the historical refutation.  Definitions only, no proofs. *)
 From Coq Require Import ZArith List Bool.
 From TV Require Import Lib.MachInt Model.Catalog.
 Import ListNotations.
@@ -123,15 +124,17 @@ Definition init_fs (old : list Z) (stale : option (list Z)) : fs :=
                  [(p_catalog, 0%nat); (p_tmp, 1%nat)] [(p_catalog, 0%nat); (p_tmp, 1%nat)] []
   end.
 
-(* CatalogPersistence::save as it is *)
+(* CatalogPersistence::save before /repo 5a0cf56 (historical) *)
 Definition save_inplace (h b : list Z) : list ev :=
   [EvCreate p_catalog; EvWrite p_catalog h; EvWrite p_catalog b; EvSync p_catalog].
-(* the repair *)
+(* CatalogPersistence::save as it is (since /repo 5a0cf56).  The directory fsync is best effort
+   in the code (`if let Ok(dir) = File::open(parent)`): a run without it is the crash point k = 5
+   that lasts for ever, so everything proved for all crash points covers it *)
 Definition save_atomic (h b : list Z) : list ev :=
   [EvCreate p_tmp; EvWrite p_tmp h; EvWrite p_tmp b; EvSync p_tmp; EvRename p_tmp p_catalog; EvSyncDir].
 
-(* the crash points the known finding is about: after the truncation and before the last byte
-   of the body has been written *)
+(* the crash points finding F-C40-1 (fixed) was about: after the truncation and before the last
+   byte of the body has been written, in save_inplace *)
 Definition inside_rewrite (h b : list Z) (k j : nat) : bool :=
   match k with
   | O => false
@@ -140,7 +143,8 @@ Definition inside_rewrite (h b : list Z) (k j : nat) : bool :=
   | _ => false
   end.
 
-(* a file that holds the first n bytes of header ++ body, as a crash point of save_inplace *)
+(* a file that holds the first n bytes of header ++ body: as a crash point of save_inplace (the
+   live file) and equally of save_atomic (the temporary file) *)
 Definition prefix_point (n : Z) : nat * nat :=
   if n <=? 128 then (1%nat, Z.to_nat n) else (2%nat, Z.to_nat (n - 128)).
 
